@@ -1,8 +1,6 @@
 CONSTANTS
-  SkSet <- SimSkeletons
-  Alpha = "full"
+  Families <- SimFamilies
   InputSet <- AllInputs
-  Chain = TRUE
 SPECIFICATION Spec
 INVARIANT WellFormed
 INVARIANT NoRuntimeError
